@@ -660,6 +660,9 @@ class SubmitSm(Trackable, SmppMessage):
             optional_params=optional_params,
             auto_message_payload=json_object['auto_message_payload'],
             error_handling=json_object['error_handling'],
+            command_status=SmppCommandStatus(json_object['command_status']),
+            log_id=json_object['log_id'],
+            extra_data=json_object['extra_data'],
         )
 
 
@@ -709,6 +712,8 @@ class SubmitSmResp(Trackable, SmppMessage):
             sequence_num=json_object['sequence_num'],
             command_status=SmppCommandStatus(json_object['command_status']),
             message_id=json_object['message_id'],
+            log_id=json_object['log_id'],
+            extra_data=json_object['extra_data'],
         )
 
 
@@ -840,6 +845,15 @@ class GenericNack(Trackable, SmppMessage):
     @property
     def smpp_command(self) -> SmppCommand:
         return SmppCommand.GENERIC_NACK
+
+    @classmethod
+    def from_json(cls, json_object: Dict[str, Any]) -> SmppMessage:
+        return cls(
+            sequence_num=json_object['sequence_num'],
+            command_status=SmppCommandStatus(json_object['command_status']),
+            log_id=json_object['log_id'],
+            extra_data=json_object['extra_data'],
+        )
 
 
 @dataclass
